@@ -138,7 +138,12 @@ class Gen:
         for _ in range(0 if built else r.below(4)):
             self.nvar += 1
             name = r.choice([b"cflags", b"ldflags", b"builddir", b"v%d" % self.nvar, b"dotted.v%d" % self.nvar] + [v for v in scope_vars[:3] if v != b"builddir_obj"])
-            out.append(name + b" = " + self.value(scope_vars) + b"\n")
+            if name in scope_vars and r.chance(1, 4):
+                # an EMPTY re-binding shadows whatever the name was bound to before (in a subninja scope: the enclosing one)
+                out.append(name + b" =\n")
+                self.feat.add("empty-rebinding" + ("-in-subninja-scope" if depth > 0 else ""))
+            else:
+                out.append(name + b" = " + self.value(scope_vars) + b"\n")
             if name not in scope_vars:
                 scope_vars.append(name)
             else:
@@ -318,6 +323,11 @@ DIRECTED_VALID = [
     ("nested-quoting", [(b"build.ninja", b"rule cc\n  command = cc -MF $depfile @$rspfile -o $out $in\n  description = CC $depfile\n  depfile = $out.d\n"
                                          b"  rspfile = $out.rsp\n  rspfile_content = $in $rspfile\nbuild obj/my$ file.o: cc a$ b.c\n")],
      [b"obj/my file.o"], [b"a b.c"]),
+    # an empty re-binding in a subninja scope shadows the parent's non-empty value
+    ("empty-shadow", [(b"build.ninja", b"flags = -O2 -DPARENT\ntag = parent\nrule cc\n  command = cc $flags -c $in -o $out\n  description = CC[$tag]\n"
+                                       b"build top.o: cc top.c\nsubninja child.ninja\n"),
+                      (b"child.ninja", b"flags =\ntag =\nbuild child.o: cc child.c\n")],
+     [b"top.o", b"child.o"], [b"top.c", b"child.c"]),
     # F22: default targets are path strings
     ("f22", [(b"build.ninja", b"rule cc\n  command = cc $in -o $out\nd = obj\nbuild $d/a$ b.o: cc x.c\ndefault $d/a$ b.o\n")],
      [b"obj/a b.o"], [b"x.c"]),
